@@ -17,7 +17,8 @@ VARIABLES l, bad, kind, lastMax, broken
 tvars == <<vars, l, bad, kind, lastMax, broken>>
 
 TMkInst(e) == [P |-> e.P, m |-> "trace", Fn |-> e.Fn, Fd |-> e.Fd, pat |-> "trace", rs |-> 0,
-               K |-> Len(e.H), N |-> Len(e.H[1]), H |-> e.H, A |-> e.A, w |-> e.w, reads |-> e.reads]
+               K |-> Len(e.H), N |-> Len(e.H[1]), H |-> e.H, A |-> e.A, w |-> e.w, reads |-> e.reads,
+               tile |-> IF "tile" \in DOMAIN e THEN e.tile ELSE 1]
 
 Mul1e6(x) == BnMulSmall(BnMulSmall(x, 1000), 1000)
 (* |q/10^6 - num/den| <= slack/10^6 *)
